@@ -83,8 +83,10 @@ def _exec_entry(packed):
 
 def stratum_sequence(strata):
     seq = []
+    frac = [w for _, w in strata if 0 < w < 1]
+    scale = int(round(1 / min(frac))) if frac else 1      # a rare stratum (weight < 1) gets one slot of a longer cycle
     for name, w in strata:
-        seq += [name] * int(w)
+        seq += [name] * max(1, int(round(w * scale)))
     return seq
 
 
